@@ -5,8 +5,8 @@ CONSTANTS
   Bug_PositionFreeUnderflow = FALSE
   DigitArgs = {"0", "1", "5", "20", "00", "100", "", "07"}
   Digits1 = {"0", "3"}
-  Positions = {0, 1, 2, 3, 4}
-  MaxBuf = 7
+  Positions = {0, 1, 2, 3}
+  MaxBuf = 6
   MaxLz = 2
 CONSTRAINT Bound
 INVARIANT ValidInv
